@@ -7,7 +7,7 @@ import FV.Proofs.Alloc
   `extract_solution` with the real constructor (`mkAllocation_valid`), for every solver answer.
 -/
 namespace FV.Glb
-open FV
+open FV FV.Alloc
 set_option linter.unusedSectionVars false
 set_option linter.unusedVariables false
 set_option linter.unusedSimpArgs false
@@ -105,7 +105,7 @@ theorem allocationCtor_of_cellsOK (εA : α) (L : List (RectAlloc α)) (h : Cell
     intro ra hra p hp
     have := h.allocs (toCell ra) (List.mem_map.mpr ⟨ra, hra, rfl⟩)
     unfold allocOK at this
-    simp only [Bool.and_eq_true, List.all_eq_true, decide_eq_true_eq, Rect.zero_eq, FV.one_eq, toCell_alloc] at this
+    simp only [Bool.and_eq_true, List.all_eq_true, decide_eq_true_eq, Rect.zero_eq, FV.Alloc.one_eq, toCell_alloc] at this
     exact ⟨(this.1 p hp).1.2, (this.1 p hp).2⟩
   have c2 : L.isEmpty = false := by
     cases L with
@@ -126,6 +126,118 @@ theorem allocationCtor_of_cellsOK (εA : α) (L : List (RectAlloc α)) (h : Cell
     simp [Rect.overlap, not_lt.mpr hab]
   unfold allocationCtor
   rw [if_neg (by rw [c1]; simp), if_neg (by rw [c2]; simp), if_neg (by rw [c3]; simp), if_neg (by rw [c4]; simp)]
+
+/-! ### ownership of cells by a fixed module, as a structural invariant -/
+
+/-- every offered cell is either exactly `{f ↦ 1}` or does not list `f` and does not overlap any of its rectangles
+    (what `create_initial_allocation` produces for a fixed module on a die whose fixed regions are the module's
+    rectangles: `FV.C03.fixed_full`). -/
+def FixedOwn (offered : List (RectAlloc α)) (f : Module α) : Prop :=
+  ∀ ra ∈ offered, ra.alloc = [(f.name, (1 : α))] ∨
+    (ra.alloc.lookup f.name = none ∧ ∀ r ∈ f.rects, ra.rect.areaOverlap r = 0)
+
+theorem lookup_single (k : String) (v : α) : List.lookup k [(k, v)] = some v := by
+  simp [List.lookup]
+
+theorem mem_of_lookup {β : Type} (k : String) (v : β) (l : List (String × β)) (h : l.lookup k = some v) : (k, v) ∈ l := by
+  induction l with
+  | nil => simp [List.lookup] at h
+  | cons p l ih =>
+    obtain ⟨k', v'⟩ := p
+    simp only [List.lookup] at h
+    by_cases hk : (k == k') = true
+    · rw [hk] at h
+      simp only [Option.some.injEq] at h
+      have : k = k' := by simpa using hk
+      subst this; subst h; simp
+    · have hk' : (k == k') = false := by simpa using hk
+      rw [hk'] at h
+      exact List.mem_cons_of_mem _ (ih h)
+
+/-- `get_a` on an allocation owned in this sense is 1 on the module's cells and 0 elsewhere. -/
+theorem getA_of_fixedOwn (offered : List (RectAlloc α)) (f : Module α) (h : FixedOwn offered f) (c : Nat)
+    (ra : RectAlloc α) (hc : offered[c]? = some ra) :
+    (ra.alloc = [(f.name, 1)] ∧ getA offered f c = some 1) ∨
+    (ra.alloc.lookup f.name = none ∧ (∀ r ∈ f.rects, ra.rect.areaOverlap r = 0) ∧ getA offered f c = some 0) := by
+  have hm : ra ∈ offered := List.mem_of_getElem? hc
+  rcases h ra hm with h1 | ⟨h2, h3⟩
+  · left
+    refine ⟨h1, ?_⟩
+    unfold getA; rw [hc]; simp only [h1, lookup_single]
+  · right
+    refine ⟨h2, h3, ?_⟩
+    unfold getA; rw [hc]; simp only [h2]
+    split
+    · rename_i r hr
+      have := h3 r (by rw [hr]; simp)
+      rw [this, zero_div]
+    · simp
+
+/-- refinement keeps ownership (new cells inherit the ratios and lie inside their parent). -/
+theorem fixedOwn_refines (cs cs' : List (Cell α)) (f : Module α) (href : Refines cs cs')
+    (h : FixedOwn (cs.map ofCell) f) : FixedOwn (cs'.map ofCell) f := by
+  intro ra hra
+  obtain ⟨d, hd, rfl⟩ := List.mem_map.mp hra
+  obtain ⟨c, hc, hal, hin, _⟩ := href.mem d hd
+  rcases h (ofCell c) (List.mem_map.mpr ⟨c, hc, rfl⟩) with h1 | ⟨h2, h3⟩
+  · left; show d.alloc = _; rw [hal]; exact h1
+  · right
+    refine ⟨by show d.alloc.lookup f.name = none; rw [hal]; exact h2, fun r hr => ?_⟩
+    have hle := areaOverlap_mono d.rect c.rect r r hin (isInside_refl r)
+    have h0 : c.rect.areaOverlap r = 0 := h3 r hr
+    exact le_antisymm (by rw [← h0]; exact hle) (C18.areaOverlap_nonneg _ _)
+
+/-- `extract_solution` keeps ownership: with `0 < thr`, a non-negative answer whose rows are `≤ 1 + tol ≤ 2 - thr`
+    and which reads the constants of `f` back (`ans.a f c = get_a`). -/
+theorem fixedOwn_extract (ans : Answer α) (thr tol : α) (mods : List (Module α)) (offered : List (RectAlloc α))
+    (f : Module α) (hthr : 0 < thr) (htol0 : 0 ≤ tol) (htol : tol ≤ 1 - thr) (hf : f ∈ mods)
+    (hnn : ∀ m ∈ mods, ∀ c < offered.length, 0 ≤ ans.a m.name c)
+    (hrow : ∀ c < offered.length, (mods.map fun m => ans.a m.name c).sum ≤ 1 + tol)
+    (ha : ∀ c v, getA offered f c = some v → ans.a f.name c = v) (h : FixedOwn offered f) :
+    FixedOwn (allocList ans thr mods (offered.map (·.rect))) f := by
+  intro ra hra
+  obtain ⟨c, cell, hc, _, rfl⟩ := (mem_allocList ans thr mods _ ra).mp hra
+  rw [List.getElem?_map] at hc
+  cases hoc : offered[c]? with
+  | none => rw [hoc] at hc; cases hc
+  | some ra0 =>
+    rw [hoc] at hc
+    simp only [Option.map_some, Option.some.injEq] at hc
+    have hlt : c < offered.length := by
+      by_contra hge
+      rw [List.getElem?_eq_none (Nat.le_of_not_lt hge)] at hoc; cases hoc
+    rcases getA_of_fixedOwn offered f h c ra0 hoc with ⟨_, hg⟩ | ⟨_, h3, hg⟩
+    · left
+      exact cellAlloc_owned ans thr tol mods c f hthr htol hf (ha c 1 hg) (fun m hm => hnn m hm c hlt) (hrow c hlt)
+    · right
+      refine ⟨?_, by intro r hr; rw [← hc]; exact h3 r hr⟩
+      show (cellAlloc ans thr mods c).lookup f.name = none
+      cases hl : (cellAlloc ans thr mods c).lookup f.name with
+      | none => rfl
+      | some v =>
+        have hm := mem_of_lookup _ _ _ hl
+        obtain ⟨m, _, hmn, hav, hgt⟩ := (mem_cellAlloc ans thr mods c f.name v).mp hm
+        rw [hmn, ha c 0 hg] at hav
+        rw [← hav] at hgt
+        linarith
+
+/-- the cells owned by `f` are not dropped by `extract_solution`. -/
+theorem owned_kept_extract (ans : Answer α) (thr tol : α) (mods : List (Module α)) (offered : List (RectAlloc α))
+    (f : Module α) (hthr : 0 < thr) (htol : tol ≤ 1 - thr) (hf : f ∈ mods)
+    (hnn : ∀ m ∈ mods, ∀ c < offered.length, 0 ≤ ans.a m.name c)
+    (hrow : ∀ c < offered.length, (mods.map fun m => ans.a m.name c).sum ≤ 1 + tol)
+    (ha : ∀ c v, getA offered f c = some v → ans.a f.name c = v)
+    (ra0 : RectAlloc α) (h0 : ra0 ∈ offered) (hown : ra0.alloc = [(f.name, 1)]) :
+    ∃ ra ∈ allocList ans thr mods (offered.map (·.rect)), ra.rect = ra0.rect ∧ ra.alloc = [(f.name, 1)] := by
+  obtain ⟨c, hlt, hc⟩ := List.getElem_of_mem h0
+  have hoc : offered[c]? = some ra0 := by rw [List.getElem?_eq_getElem hlt, hc]
+  have hg : getA offered f c = some 1 := by
+    unfold getA; rw [hoc]; simp only [hown, lookup_single]
+  have hown' := cellAlloc_owned ans thr tol mods c f hthr htol hf (ha c 1 hg) (fun m hm => hnn m hm c hlt) (hrow c hlt)
+  refine ⟨{ rect := ra0.rect, alloc := cellAlloc ans thr mods c, depth := 0 }, ?_, rfl, hown'⟩
+  refine (mem_allocList ans thr mods _ _).mpr ⟨c, ra0.rect, ?_, ?_, rfl⟩
+  · rw [List.getElem?_map, hoc]; rfl
+  · rw [hown']; simp
 
 /-! ### one step of each kind -/
 
